@@ -212,9 +212,11 @@ Fixpoint LOOPG (n : nat) (ls : lexstate) (s : list ch) (ln : Z) (harmony : bool)
 End LoopCopy.
 Definition LOOP (f : nat) := LOOPG (lex_f f).
 
-(* lex_f (S f) is this loop, started with fuel S (length src), no open chord, and the initial LineNo token *)
+(* lex_f (S f) is this loop - after the scan of lex_preprocess, which sends every source that defines a user function
+   outside the model - started with fuel S (length src), no open chord, and the initial LineNo token *)
 Lemma lex_f_unfold : forall f ls src ln,
-  lex_f (S f) ls src ln = LOOP f (S (length src)) ls src ln false [TLineNo ln].
+  lex_f (S f) ls src ln
+  = if lex_pre src then Unsupported U_FUNCTION else LOOP f (S (length src)) ls src ln false [TLineNo ln].
 Proof.
   intros. cbn [lex_f]. unfold LOOP. cbn [LOOPG].
   (* in step with the model this takes well under a second; a copy that is out of date would send the conversion
@@ -222,8 +224,13 @@ Proof.
   Timeout 60 reflexivity.
 Timeout 300 Qed.
 Lemma lex_unfold : forall ls src ln,
-  lex ls src ln = LOOP (length src) (S (length src)) ls src ln false [TLineNo ln].
+  lex ls src ln
+  = if lex_pre src then Unsupported U_FUNCTION else LOOP (length src) (S (length src)) ls src ln false [TLineNo ln].
 Proof. intros. unfold lex. apply lex_f_unfold. Qed.
+(* a source in which the scan finds no FUNCTION / Function *)
+Lemma lex_unfold_plain : forall ls src ln, lex_pre src = false ->
+  lex ls src ln = LOOP (length src) (S (length src)) ls src ln false [TLineNo ln].
+Proof. intros ls src ln H. rewrite lex_unfold, H. reflexivity. Qed.
 
 (* ------------------------------------------------------------------------------------------ *)
 (* 1. cursor helpers used by the comment arms                                                   *)
@@ -700,10 +707,10 @@ Proof.
   induction its as [|i its IH]; cbn [print_items length]; [lia|]. rewrite app_length.
   assert (1 <= length (print_item i))%nat by (destruct i; cbn [print_item length]; lia). lia.
 Qed.
-Theorem lex_items its ls ln : forallb litem_ok its = true ->
+Theorem lex_items its ls ln : forallb litem_ok its = true -> lex_pre (print_items its) = false ->
   lex ls (print_items its) ln = Ok (TLineNo ln :: items_toks ln its, items_ls ls [] ln its).
 Proof.
-  intros H. rewrite lex_unfold.
+  intros H NF. rewrite (lex_unfold_plain _ _ _ NF).
   pose proof (print_items_length its) as L.
   transitivity (LOOP (length (print_items its)) (length its + S (length (print_items its) - length its))
                      ls (print_items its ++ []) ln false [TLineNo ln]).
@@ -920,13 +927,14 @@ Qed.
 (* the whole lexer on  layout, note, layout, note, ... : the tokens are the notes, in order, plus LineNo / Comment *)
 Theorem lex_nprog its0 p ls ln :
   forallb litem_ok its0 = true -> forallb is_layout its0 = true -> nprog_ok p [] (ln + items_lines its0) = true ->
+  lex_pre (print_items its0 ++ print_nprog p) = false ->
   lex ls (print_items its0 ++ print_nprog p) ln
   = Ok (TLineNo ln :: items_toks ln its0 ++ nprog_toks p (ln + items_lines its0), ls)
   /\ erase_lineno (TLineNo ln :: items_toks ln its0 ++ nprog_toks p (ln + items_lines its0))
      = map (fun xi => snote_tok (fst xi)) p.
 Proof.
-  intros H0 L0 HP. split.
-  - rewrite lex_unfold.
+  intros H0 L0 HP NF. split.
+  - rewrite (lex_unfold_plain _ _ _ NF).
     pose proof (print_items_length its0) as A. pose proof (nprog_fuel_length p) as B.
     set (src := print_items its0 ++ print_nprog p).
     set (k := S (length src - length its0 - nprog_fuel p)).
@@ -948,12 +956,13 @@ Theorem notes_layout its1 p1 its2 p2 ls ln :
   forallb litem_ok its1 = true -> forallb is_layout its1 = true -> nprog_ok p1 [] (ln + items_lines its1) = true ->
   forallb litem_ok its2 = true -> forallb is_layout its2 = true -> nprog_ok p2 [] (ln + items_lines its2) = true ->
   map (fun xi => snote_tok (fst xi)) p1 = map (fun xi => snote_tok (fst xi)) p2 ->
+  lex_pre (print_items its1 ++ print_nprog p1) = false -> lex_pre (print_items its2 ++ print_nprog p2) = false ->
   exists t1 t2, lex ls (print_items its1 ++ print_nprog p1) ln = Ok (t1, ls)
              /\ lex ls (print_items its2 ++ print_nprog p2) ln = Ok (t2, ls)
              /\ erase_lineno t1 = erase_lineno t2
              /\ erase_lineno t1 = map (fun xi => snote_tok (fst xi)) p1.
 Proof.
-  intros A1 B1 C1 A2 B2 C2 E.
-  destruct (lex_nprog its1 p1 ls ln A1 B1 C1) as [X1 Y1]. destruct (lex_nprog its2 p2 ls ln A2 B2 C2) as [X2 Y2].
+  intros A1 B1 C1 A2 B2 C2 E N1 N2.
+  destruct (lex_nprog its1 p1 ls ln A1 B1 C1 N1) as [X1 Y1]. destruct (lex_nprog its2 p2 ls ln A2 B2 C2 N2) as [X2 Y2].
   eexists. eexists. split; [exact X1|]. split; [exact X2|]. split; [rewrite Y1, Y2; exact E|exact Y1].
 Qed.
